@@ -8,6 +8,7 @@ import (
 	"sort"
 	"strconv"
 	"strings"
+	"time"
 
 	"github.com/PapaCharlie/go-restli/v2/restlicodec"
 	"verifgen/hx"
@@ -21,6 +22,13 @@ import (
 //       ints / uints / floats of every width and extreme, strings that parse (or not) as numbers / booleans, []byte and named
 //       byte slices, json.Number, channels, funcs, structs, arrays, maps with non-string keys, typed slices and maps;
 //       oracle: never a panic; a named byte slice behaves as the []byte with the same content
+//   (c) maps / slices of CONCRETE element type (map[string]int32, map[string]bool, map[string]string, []int64, map[string]map[string]int32,
+//       ...) built from such trees wherever the members allow it, with zero values forced in and record objects restricted to the
+//       members of one JSON kind: oracle: decoded exactly as the map[string]any / []any counterpart, exact missing set; compared with decA
+//   (d) pointer chains (2-6 levels, *any, **any) around nodes: compared with decA; a 64-level chain: oracle only
+//   (e) CYCLIC values (var p any; p = &p / type loop *loop / two-variable cycles / chains leading into a cycle), alone and grafted
+//       into trees, every read under a deadline: oracle only (a cyclic value is not a finite gval term): the call must return - an
+//       error or a value - and not hang or panic
 // The value handed to the reader is written for the model by toGval, a reflect walk that shares no code with the reader.
 
 type anyBytes []byte
@@ -30,7 +38,9 @@ type anyKey string
 type anyInt int16
 type anyF32 float32
 
-var anyTops = []string{"Inner", "Prims", "Opts", "Dflt", "Coll", "WithU", "Incl", "Incl2", "Rec", "Big", "IX", "IY", "U", "UN", "DOuter", "DElems", "Color", "Fx4"}
+var anyTops = []string{"Inner", "Prims", "Opts", "Dflt", "Coll", "WithU", "Incl", "Incl2", "Rec", "Big", "IX", "IY", "U", "UN", "DOuter", "DElems", "Color", "Fx4", "DIn", "DEmp", "Wide"}
+
+type anyLoop *anyLoop
 
 // ---- Go value -> Coq gval term (map entries sorted by key)
 type gvalCtx struct {
@@ -281,13 +291,38 @@ func hostileOther(r *hx.Rand) interface{} {
 		map[int]interface{}{1: 2}, map[anyKey]interface{}{"a": 1}, map[string]int{"a": 1, "r": 2}, map[string]*int{"a": nil, "r": &one}, map[string]interface{}{"a": nil},
 		map[interface{}]interface{}{"a": 1}, map[bool]interface{}{}, map[string]interface{}(nil), map[string]string{"r": "1", "s": "x"}, map[string][]byte{"b": nil, "s": []byte("x")},
 		[]int{1, 2}, []string{"a", "1"}, []interface{}{nil}, []*int{nil, &one}, [][]byte{[]byte("a")}, []float64{1.5}, []interface{}(nil), []interface{}{}, []int8{1},
-		[]map[string]interface{}{{}, nil}, []bool{true}, reflect.ValueOf(1), fmt.Errorf("e")}
+		[]map[string]interface{}{{}, nil}, []bool{true}, reflect.ValueOf(1), fmt.Errorf("e"),
+		// typed maps holding ZERO values / typed nils (a member that is present with the zero value is a value, a typed nil is not the nil interface)
+		map[string]int32{"a": 0, "r": 0, "d": 0, "n": 0, "v": 0, "i": 0, "dz": 0, "l": 0}, map[string]bool{"b": false, "db": false, "k": false},
+		map[string]string{"s": "", "z": "", "ds": "", "b": "", "x1": "", "y1": ""}, map[string]float64{"d": 0, "dd": 0, "x": 0, "f": 0},
+		map[string]map[string]int32{"dm": nil, "w": nil, "m": {"a": 0}}, map[string][]string{"tags": nil, "arr": nil}, map[string]*int32{"n": nil, "a": nil},
+		map[string][]interface{}{"kids": nil, "da": nil}, map[string]map[string]interface{}{"next": nil, "dr": nil, "de": nil}}
 	return l[r.Intn(len(l))]
+}
+
+// a node behind 2..6 pointer levels, or held in an `any` variable that is pointed to (val() looks through exactly one pointer)
+func ptrChain(r *hx.Rand, node interface{}) interface{} {
+	if node == nil || r.Chance(30) {
+		e := new(interface{})
+		*e = node
+		if r.Chance(40) {
+			return &e // **any
+		}
+		return e // *any
+	}
+	x := ptrTo(node)
+	for k := 1 + r.Intn(5); k > 0; k-- {
+		x = ptrTo(x)
+	}
+	return x
 }
 
 // one hostile value suited (most of the time) to the node it replaces; returns the value and its []byte twin
 func anyHostile(r *hx.Rand, node interface{}) (interface{}, interface{}) {
 	same := func(x interface{}) (interface{}, interface{}) { return x, x }
+	if r.Chance(12) {
+		return same(ptrChain(r, node))
+	}
 	switch n := node.(type) {
 	case float64:
 		switch r.Intn(8) {
@@ -445,6 +480,67 @@ func guise(r *hx.Rand, x interface{}, n *int) interface{} {
 	return x
 }
 
+// cyclic values: only pointer / interface links (a finite tree walk never ends on them: never handed to toGval / descAny)
+type cyclic struct {
+	name string
+	mk   func() interface{}
+}
+
+var cyclics = []cyclic{
+	{"var p any; p = &p", func() interface{} { var p interface{}; p = &p; return p }},
+	{"type loop *loop; var l loop; l = &l", func() interface{} { var l anyLoop; l = &l; return l }},
+	{"var a, b any; a = &b; b = &a", func() interface{} { var a, b interface{}; a = &b; b = &a; return a }},
+	{"var p any; p = &p; q := &p; &q", func() interface{} { var p interface{}; p = &p; q := &p; return &q }},
+	{"type loop *loop; var l loop; l = &l; any(&l)", func() interface{} { var l anyLoop; l = &l; return &l }},
+}
+
+// a copy of the tree with the value mk() in place of every node chosen with probability p (the paths are recorded)
+func graftValue(r *hx.Rand, x interface{}, p int, mk func() interface{}, path string, at *[]string) interface{} {
+	if path != "" && r.Chance(p) {
+		*at = append(*at, path)
+		return mk()
+	}
+	switch y := x.(type) {
+	case map[string]interface{}:
+		a := map[string]interface{}{}
+		keys := make([]string, 0, len(y))
+		for k := range y {
+			keys = append(keys, k)
+		}
+		sort.Strings(keys)
+		for _, k := range keys {
+			a[k] = graftValue(r, y[k], p, mk, path+"."+strconv.Quote(k), at)
+		}
+		return a
+	case []interface{}:
+		a := make([]interface{}, len(y))
+		for i := range y {
+			a[i] = graftValue(r, y[i], p, mk, fmt.Sprintf("%s[%d]", path, i), at)
+		}
+		return a
+	}
+	return x
+}
+
+// decodeAnyValue under a watchdog: hung = no result within the limit (the goroutine is left behind)
+func decodeAnyDeadline(tname string, x interface{}, limit time.Duration) (oc outcome, v *Val, hung bool) {
+	type result struct {
+		oc outcome
+		v  *Val
+	}
+	ch := make(chan result, 1)
+	go func() {
+		oc, v := decodeAnyValue(tname, x)
+		ch <- result{oc, v}
+	}()
+	select {
+	case res := <-ch:
+		return res.oc, res.v, false
+	case <-time.After(limit):
+		return outcome{Class: "hang"}, nil, true
+	}
+}
+
 // NewInterfaceReader(x) + the generated UnmarshalRestLi of tname
 func decodeAnyValue(tname string, x interface{}) (oc outcome, v *Val) {
 	var err error
@@ -525,10 +621,11 @@ func runCAny(cfg *hx.Config) {
 		"named byte slices behave as []byte, everything compared with decA. non-trivial = a required field is missing or a hostile value was grafted; distinct by (type, value)")
 	shd := hx.NewShards(cfg.Out, anyHeader(), "AnyCorr", 30)
 	r := hx.NewRand(cfg.Seed)
-	nJSON, nHostile := 25, 70
+	nJSON, nHostile, nTyped, nCyclic := 25, 70, 30, 2
 	if cfg.Thorough() {
-		nJSON, nHostile = 400, 1200
+		nJSON, nHostile, nTyped, nCyclic = 400, 1200, 500, 20
 	}
+	hangs := 0
 	kinds := map[string]int{}
 	site := "v2/restlicodec/any_reader.go"
 
@@ -607,7 +704,10 @@ func runCAny(cfg *hx.Config) {
 			emit(tname, x, oc, got, anyDesc{Source: "json", Document: text, Value: descAny(x), Note: note})
 		}
 		// ---- (b) hostile native values
-		for i := 0; i < nHostile; i++ {
+		if tname == "DIn" || tname == "DEmp" || tname == "Wide" {
+			nH, nT = nHostile/4, nTyped/2 // (the model is about three times slower on the 70-field record)
+		}
+		for i := 0; i < nH; i++ {
 			var x, twin, orig interface{}
 			note := ""
 			if i%10 == 9 {
@@ -681,6 +781,118 @@ func runCAny(cfg *hx.Config) {
 				rep.Sample(cd)
 			}
 			emit(tname, x, oc, got, anyDesc{Source: "hostile", Value: desc, Note: note})
+		}
+			// ---- (c) maps / slices of concrete element type
+		for i := 0; i < nT; i++ {
+			v := schema.gen(r, t, genOpts{utf8: true, depth: 1 + r.Intn(3)})
+			schema.zeroSome(r, v, 30)
+			note := ""
+			if isRecord && r.Chance(65) {
+				kind := []string{"num", "num", "bool", "str", "str", "obj", "arr"}[r.Intn(7)]
+				v = schema.projectVal(tname, v, kind)
+				note = "members of JSON kind " + kind + " only; "
+			}
+			d := schema.refEncode(t, v)
+			if r.Chance(30) {
+				var mn string
+				d, mn = mutateDoc(schema, t, d, r, false)
+				note += mn
+			}
+			if !d.jsonOK() || d.bigInt() {
+				continue
+			}
+			text := d.render(0, r, false)
+			var y interface{}
+			if err := json.Unmarshal([]byte(text), &y); err != nil {
+				continue
+			}
+			nconv := 0
+			x := typify(r, y, 75, &nconv)
+			if nconv == 0 {
+				continue
+			}
+			oc, got := decodeAnyValue(tname, x)
+			ocu, gotu := decodeAnyValue(tname, y)
+			rep.Evaluations++
+			rep.Count("source=typed-containers")
+			rep.Count("outcome=" + oc.Class)
+			desc := descAny(x)
+			var want []string
+			schema.missingSpec(t, d, "", &want)
+			rep.Distinct(tname+desc, true)
+			cd := map[string]interface{}{"type": tname, "reader": "any", "value": desc, "document": text, "note": note + fmt.Sprintf("; %d maps / slices given a concrete element type", nconv),
+				"expected_missing": want, "outcome": oc}
+			switch {
+			case oc.Class == "panic":
+				rep.Fail("any:panic", "the untyped reader panicked on a Go value", site, cd, oc.Text)
+			case isRecord && len(want) == 0 && oc.Class != "ok":
+				rep.Fail("any:missing:spurious-"+oc.Class, "no required field is missing but the untyped reader fails", site, cd, oc.Text)
+			case isRecord && len(want) > 0 && oc.Class != "missing":
+				rep.Fail("any:missing:not-reported", "required fields are missing but the untyped reader returns no missing-required-fields error", site, cd, oc.Text)
+			case isRecord && len(want) > 0 && strings.Join(oc.Fields, "|") != strings.Join(want, "|"):
+				rep.Fail("any:missing:wrong-set", "the set of missing fields reported by the untyped reader differs from the absent required fields", site, cd, oc.Fields)
+			}
+			if oc.Class != "panic" && (ocu.Class != oc.Class || strings.Join(ocu.Fields, "|") != strings.Join(oc.Fields, "|") ||
+				((oc.Class == "ok" || oc.Class == "missing") && valKey(got) != valKey(gotu))) {
+				cd["untyped_value"] = descAny(y)
+				cd["untyped_outcome"] = ocu
+				cd["typed_decoded"] = got.fixJSON()
+				cd["untyped_decoded"] = gotu.fixJSON()
+				rep.Fail("any:typed-container-differs", "a map / slice with a concrete element type is not decoded as the map[string]any / []any with the same members (a member holding the zero value is present)", site, cd, nil)
+			}
+			if i < 2 {
+				rep.Sample(cd)
+			}
+			emit(tname, x, oc, got, anyDesc{Source: "typed", Document: text, Value: desc, Note: note})
+		}
+		// ---- (d) a deep pointer chain, (e) cyclic values: oracle only, every read under a deadline
+		deadline := 2 * time.Second
+		watch := func(x interface{}, desc, note string) {
+			if hangs >= 2 {
+				return // every hung read keeps spinning in its goroutine: two failing inputs are enough
+			}
+			oc, _, hung := decodeAnyDeadline(tname, x, deadline)
+			rep.Evaluations++
+			rep.Count("source=cyclic-or-deep")
+			rep.Count("outcome=" + oc.Class)
+			rep.Distinct(tname+desc+note, true)
+			cd := map[string]interface{}{"type": tname, "reader": "any", "value": desc, "note": note, "outcome": oc}
+			switch {
+			case hung:
+				hangs++
+				rep.Fail("any:hang", "the untyped reader did not return within the deadline on a Go value (it must return an error or a value)", site, cd, fmt.Sprint("no result after ", deadline))
+			case oc.Class == "panic":
+				rep.Fail("any:panic", "the untyped reader panicked on a Go value", site, cd, oc.Text)
+			}
+		}
+		{
+			var deep interface{} = int32(5)
+			for k := 0; k < 64; k++ {
+				deep = ptrTo(deep)
+			}
+			watch(deep, "a chain of 64 pointers to int32(5)", "standalone")
+			watch(map[string]interface{}{"a": deep, "v": deep, "r": deep, "i": deep, "n": deep, "f00": deep, "int": deep, "long": deep}, "map[string]any{a, v, r, i, n, f00, int, long: a chain of 64 pointers to int32(5)}", "as members")
+		}
+		for _, c := range cyclics {
+			watch(c.mk(), c.name, "standalone")
+			for i := 0; i < nCyclic; i++ {
+				v := schema.gen(r, t, genOpts{utf8: true, depth: 1 + r.Intn(2)})
+				d := schema.refEncode(t, v)
+				if !d.jsonOK() {
+					continue
+				}
+				var y interface{}
+				if err := json.Unmarshal([]byte(d.render(0, r, false)), &y); err != nil {
+					continue
+				}
+				var at []string
+				var x interface{}
+				for k := 0; k < 8 && len(at) == 0; k++ {
+					at = nil
+					x = graftValue(r, y, 10+6*k, c.mk, "", &at)
+				}
+				watch(x, descAny(y)+" with `"+c.name+"` in place of the nodes at "+strings.Join(at, ", "), "grafted")
+			}
 		}
 	}
 	for k, n := range kinds {
